@@ -567,6 +567,8 @@ func (g *Gen) make(k Kind) *Op {
 			op.N = 1 + R.Intn(P.MaxBatchNew)
 			if R.Chance(5) {
 				op.N = 60 + R.Intn(80) // across the 64-row boundary
+			} else if R.Chance(3) {
+				op.N = 0 // an empty batch creates nothing and calls nothing
 			}
 			op.BatchCb = R.Chance(50)
 		}
